@@ -12,10 +12,10 @@ import (
 
 // Failure is one violated clause on one explored case.
 type Failure struct {
-	Clause   string   `json:"clause"`          // which clause of the property
-	Unit     string   `json:"unit"`            // exploration unit that produced it
-	Case     string   `json:"case"`            // canonical, human-readable case
-	Tags     []string `json:"tags,omitempty"`  // features of the case used to attribute known findings
+	Clause   string   `json:"clause"`         // which clause of the property
+	Unit     string   `json:"unit"`           // exploration unit that produced it
+	Case     string   `json:"case"`           // canonical, human-readable case
+	Tags     []string `json:"tags,omitempty"` // features of the case used to attribute known findings
 	Choices  []int    `json:"choices,omitempty"`
 	Expected string   `json:"expected"`
 	Got      string   `json:"got"`
@@ -25,24 +25,24 @@ func (f Failure) Sig() string { return f.Clause + "|" + f.Unit + "|" + f.Case }
 
 // Recorder accumulates what one unit (or one worker) covered.
 type Recorder struct {
-	mu           sync.Mutex
-	Unit         string
-	Evaluations  int64
-	States       int64
-	Transitions  int64
-	Traces       int64
-	Nontrivial   int64
-	Skipped      int64
-	outcomes     map[uint64]struct{}
-	stateSet     map[uint64]struct{}
-	Samples      []string
-	Failures     []Failure
-	FailCount    int64
-	Caps         []string
-	Bounds       map[string]string
+	mu            sync.Mutex
+	Unit          string
+	Evaluations   int64
+	States        int64
+	Transitions   int64
+	Traces        int64
+	Nontrivial    int64
+	Skipped       int64
+	outcomes      map[uint64]struct{}
+	stateSet      map[uint64]struct{}
+	Samples       []string
+	Failures      []Failure
+	FailCount     int64
+	Caps          []string
+	Bounds        map[string]string
 	NotExhaustive bool
-	MaxFailures  int
-	deadline     time.Time
+	MaxFailures   int
+	deadline      time.Time
 }
 
 func NewRecorder(unit string) *Recorder {
@@ -162,21 +162,21 @@ func (r *Recorder) AddExplore(st Stats, what string) {
 
 // Partial is what a worker process reports for the units it ran.
 type Partial struct {
-	Units        []string          `json:"units"`
-	Evaluations  int64             `json:"evaluations"`
-	States       int64             `json:"states"`
-	Transitions  int64             `json:"transitions"`
-	Traces       int64             `json:"traces"`
-	Nontrivial   int64             `json:"nontrivial"`
-	Skipped      int64             `json:"skipped"`
-	Outcomes     int64             `json:"outcomes"`
-	Samples      []string          `json:"samples"`
-	Failures     []Failure         `json:"failures"`
-	FailCount    int64             `json:"fail_count"`
-	Caps         []string          `json:"caps"`
-	Bounds       map[string]string `json:"bounds"`
-	Exhaustive   bool              `json:"exhaustive"`
-	UnitWall     map[string]float64 `json:"unit_wall"`
+	Units       []string           `json:"units"`
+	Evaluations int64              `json:"evaluations"`
+	States      int64              `json:"states"`
+	Transitions int64              `json:"transitions"`
+	Traces      int64              `json:"traces"`
+	Nontrivial  int64              `json:"nontrivial"`
+	Skipped     int64              `json:"skipped"`
+	Outcomes    int64              `json:"outcomes"`
+	Samples     []string           `json:"samples"`
+	Failures    []Failure          `json:"failures"`
+	FailCount   int64              `json:"fail_count"`
+	Caps        []string           `json:"caps"`
+	Bounds      map[string]string  `json:"bounds"`
+	Exhaustive  bool               `json:"exhaustive"`
+	UnitWall    map[string]float64 `json:"unit_wall"`
 }
 
 func (r *Recorder) Partial() Partial {
@@ -248,7 +248,7 @@ type Harness struct {
 
 var registry = map[string]*Harness{}
 
-func Register(h *Harness) { registry[strings.ToUpper(h.ID)] = h }
+func Register(h *Harness)       { registry[strings.ToUpper(h.ID)] = h }
 func Lookup(id string) *Harness { return registry[strings.ToUpper(id)] }
 func IDs() []string {
 	var out []string
